@@ -1,6 +1,6 @@
 (* Proofs_C13.v — restricting the spectral grid never changes the values computed on it. *)
 From Coq Require Import ZArith Reals List Bool Arith Lia Lra.
-From TV Require Import Num ListNum ListAux ListNumR Model_C01 Proofs_C01 Proofs_C03 Model_C13.
+From TV Require Import Num ListNum ListAux ListNumR Model_C01 Proofs_C01 Proofs_C03 Model_C13 Model_C05.
 Import ListNotations.
 Local Open Scope R_scope.
 
@@ -175,3 +175,39 @@ Theorem native_grid_longest (gs : list (list R)) g : In g gs ->
   In (@native_grid R gs) gs /\ (length g <= length (@native_grid R gs))%nat.
 Proof. intros Hin. destruct gs as [|g0 gs]; [destruct Hin|]. cbn [native_grid].
   split; [apply longest_from_in|apply longest_from_max; exact Hin]. Qed.
+
+(* ---------------- binning the restricted result: locality of the overlap-weighted mean ---------------- *)
+Notation ovR := (@ov R RNum).
+Notation omean := (@overlap_mean R RNum).
+
+(* two native rows count the same for the target bin [a,b]: same overlap, and the same value when they overlap it *)
+Definition same_for (a b : R) (r1 r2 : @nrow R) : Prop :=
+  ovR a b r1 = ovR a b r2 /\ (ovR a b r1 <> 0 -> @r_f R r1 = @r_f R r2).
+
+Lemma sum_zero_ov (a b : R) (f : @nrow R -> R) (l : list (@nrow R)) :
+  Forall (fun r => ovR a b r = 0) l -> Rsum (map (fun r => ovR a b r * f r) l) = 0.
+Proof. induction 1 as [|r l Hr _ IH]; cbn [map]; [apply Rsum_nil|]. rewrite Rsum_cons, IH, Hr. ring. Qed.
+
+Lemma sum_zero_ov1 (a b : R) (l : list (@nrow R)) :
+  Forall (fun r => ovR a b r = 0) l -> Rsum (map (ovR a b) l) = 0.
+Proof. induction 1 as [|r l Hr _ IH]; cbn [map]; [apply Rsum_nil|]. rewrite Rsum_cons, IH, Hr. ring. Qed.
+
+Lemma sum_same (a b : R) (l1 l2 : list (@nrow R)) : Forall2 (same_for a b) l1 l2 ->
+  Rsum (map (fun r => ovR a b r * @r_f R r) l1) = Rsum (map (fun r => ovR a b r * @r_f R r) l2)
+  /\ Rsum (map (ovR a b) l1) = Rsum (map (ovR a b) l2).
+Proof. induction 1 as [|r1 r2 l1 l2 [Ho Hf] _ [IH1 IH2]]; cbn [map]; [split; reflexivity|].
+  rewrite !Rsum_cons, IH1, IH2, <- Ho. split; [|reflexivity].
+  destruct (Req_dec (ovR a b r1) 0) as [Hz|Hnz]; [rewrite Hz; ring|rewrite (Hf Hnz); reflexivity]. Qed.
+
+(* the binned value of a target bin depends only on the native bins that overlap it: rows without overlap may be
+   added or removed at either end, rows in between may change in any way that keeps their overlap and value *)
+Theorem overlap_mean_local (a b : R) (pre mid post pre' mid' post' : list (@nrow R)) :
+  Forall (fun r => ovR a b r = 0) pre -> Forall (fun r => ovR a b r = 0) post ->
+  Forall (fun r => ovR a b r = 0) pre' -> Forall (fun r => ovR a b r = 0) post' ->
+  Forall2 (same_for a b) mid mid' ->
+  omean (pre ++ mid ++ post) a b = omean (pre' ++ mid' ++ post') a b.
+Proof. intros H1 H2 H3 H4 Hm. unfold overlap_mean. rnum.
+  rewrite !map_app, !Rsum_app.
+  rewrite (sum_zero_ov a b _ pre H1), (sum_zero_ov a b _ post H2), (sum_zero_ov a b _ pre' H3), (sum_zero_ov a b _ post' H4).
+  rewrite (sum_zero_ov1 a b pre H1), (sum_zero_ov1 a b post H2), (sum_zero_ov1 a b pre' H3), (sum_zero_ov1 a b post' H4).
+  destruct (sum_same a b mid mid' Hm) as [E1 E2]. rewrite E1, E2. reflexivity. Qed.
